@@ -6,13 +6,13 @@ import os
 ROOT = os.path.dirname(os.path.dirname(os.path.abspath(__file__)))
 PIPE = 'pipeline engine: real generate/erase/overwrite/translate call sequence of hephaestus.gen_program under harness-installed monitors'
 CHECKS = {
- 'C01': ('pipeline', 'DESIGN 5/C01', 'reference type checker (three-valued) over every typed position of every generated program; javac as the judge for Java',
+ 'C01': ('pipeline', 'DESIGN 5/C01', 'reference type checker (three-valued) over every typed position of every generated program + wrapper on Generator.generate_expr (requested type vs. type of the node it returned, judged at the node\'s position); javac as the judge for Java',
          'what the reference checker cannot decide (capture conversion, unresolved members) is unjudged and counted; Kotlin/Groovy/Scala have no compiler in the sandbox'),
  'C02': ('pipeline', 'DESIGN 5/C02', 'process-boundary monitor: real javac on every generated and erased Java translation, alone vs. batched with the tool\'s own command line',
          'javac 17 is the judge; truth runs lift the 100-error print limit'),
- 'C03': ('pipeline', 'DESIGN 5/C03', 'snapshot/diff monitor around TypeErasure.transform() with a whitelist of permitted differences; javac on erased Java translations',
-         'well-typedness after erasure is decided by javac for Java only; for the other languages only the structural clauses are decided'),
- 'C04': ('pipeline', 'DESIGN 5/C04', 'snapshot/diff monitor around TypeOverwriting.transform(): exactly-one-type, reference unrelatedness, message, javac must reject (Java), unchanged when not injected',
+ 'C03': ('pipeline', 'DESIGN 5/C03', 'snapshot/diff monitor around TypeErasure.transform() with a whitelist of permitted differences; reference checker re-run in inference mode on the erased program (omitted annotations re-inferred, omitted type arguments solved) against its findings before the erasure; javac on erased Java translations',
+         'well-typedness after erasure is decided by javac for Java and by the inference-mode reference checker (a model of compiler inference; undecided positions are unjudged and counted) for Kotlin/Groovy/Scala'),
+ 'C04': ('pipeline', 'DESIGN 5/C04', 'snapshot/diff monitor around TypeOverwriting.transform(): exactly-one-type, reference unrelatedness, message, reference checker must find a new definite error (all languages), javac must reject (Java), unchanged when not injected',
          'the reference subtype relation and the (under-approximated) language conversion tables; javac for Java'),
  'C05': ('pipeline', 'DESIGN 5/C05', 'independent scope / arity / mutability / keyword resolver walking every name-use site of every generated program',
          'unknown receivers are unjudged; keyword tables are the harness\'s own'),
@@ -20,13 +20,13 @@ CHECKS = {
          'reference relation mirrors the IR\'s naive-substitution definition of supertypes of projected types; negatives judged only inside the exactness domain'),
  'C07': ('typelab', 'DESIGN 5/C07', 'wrapper monitor on TypeConstructor.new / substitute_type / to_variance_free / to_type_variable_free: entry/exit value digests of all inputs, reference substitution, end-of-history audit of earlier instantiations',
          'value-structural digests; attribution of audit hits by write traps in a replayed case'),
- 'C08': ('typelab', 'DESIGN 5/C08', 'post-condition monitor (P1-P5) on every call of instantiate_type_constructor / instantiate_parameterized_function, synthetic and in real runs',
+ 'C08': ('typelab', 'DESIGN 5/C08', 'post-condition monitor (P1-P5) on every call of instantiate_type_constructor / instantiate_parameterized_function / direct _compute_type_variable_assignments, synthetic, through Generator._get_matching_class on synthetic tables, and in real runs',
          'bound checks the reference relation cannot decide are unjudged'),
  'C09': ('typelab', 'DESIGN 5/C09', 'wrapper monitor on find_subtypes / find_irrelevant_type judged by the reference relation, synthetic tables x RNG seeds and every call of real runs',
          'the reference relation includes the implicit top type'),
  'C10': ('typelab', 'DESIGN 5/C10', 'wrapper monitor on unify_types: substitute-back law on structural terms, bounds of open and assigned variables; pairs built from a unifier and perturbed',
          'completeness is not demanded'),
- 'C11': ('pipeline', 'DESIGN 5/C11', 'translation histories (driver, fresh, repeated, long-lived reused translator, after foreign-language translators): byte equality of texts, value digest of the program around every translation',
+ 'C11': ('pipeline', 'DESIGN 5/C11', 'translation histories (driver, fresh, repeated, long-lived reused translator, after foreign-language translators, fresh translator at session end on a faithful copy): byte equality of texts, value digest of the program around every translation',
          'digest equality ignores object sharing'),
  'C12': ('pipeline', 'DESIGN 5/C12', 'per-language scanners over the emitted text compared with a declaration inventory computed from the IR; balance of brackets and quotes',
          'scanners are tokenisers, not parsers'),
@@ -36,11 +36,11 @@ CHECKS = {
          'kotlinc/groovyc/scalac formats are synthesised (templates from reported/bugs.json and the compilers\' documented renderers)'),
  'C15': ('driverlab', 'DESIGN 5/C15', 'decision-table monitor on the real check_oracle/update_stats with a scripted compiler + whole CLI sessions against scripted compilers on PATH, judged by a 15-line decision model and conservation laws',
          'debug/rerun/examine modes are outside the workload'),
- 'C16': ('ctxlab', 'DESIGN 5/C16', 'operation histories on the real Context compared after every step with a reference scoped-map model',
+ 'C16': ('ctxlab', 'DESIGN 5/C16', 'operation histories on the real Context compared after every step with a reference scoped-map model; declaration trees registered through Program.add_declaration/update_children compared with the lexical scoped map',
          'global queries are judged exactly only when a name is live in one reachable namespace'),
  'C17': ('pipeline', 'DESIGN 5/C17', 'absence-predicate monitor over a total walk of every recorded type of programs generated under all 16 switch subsets x 4 languages',
          'star projections are counted, not judged'),
- 'C18': ('pipeline', 'DESIGN 5/C18', 'exception capture and logical step counting (sys.monitoring PY_START of repository code) per pipeline stage; AST nesting bound',
+ 'C18': ('pipeline', 'DESIGN 5/C18', 'exception capture and logical step counting (sys.monitoring PY_START of repository code) per pipeline stage; AST nesting bound; identifier-pool refill invariant between programs and one long single-process session',
          'termination is decided as bounded progress on logical steps; a wall-clock watchdog firing is inconclusive'),
  'C19': ('graphlab', 'DESIGN 5/C19', 'all digraphs on <=4 vertices and random larger ones against an independent reference; wrapper on dfs during real dependency analyses',
          'exhaustive up to 4 vertices'),
